@@ -57,14 +57,18 @@ def rt_op(rng, cap, shape):
     r = rng.random()
     if r < 0.35:
         payload = hx(bytes(rng.randrange(256) for _ in range(rng.choice([0, 1, 7, 64, cap - 1, cap]))))
+    # the two shapes below leave the theorem's hypotheses; what the client then keeps depends on the
+    # iteration order of the daemon's unordered_map, so they carry exactly one field and no payload
     if shape == "edge-line":     # a physical line of exactly 16383 / 16384 / 16385 bytes
         k = rnd_key(rng)
         total = rng.choice([16383, 16384, 16385])
         body = b"v" * max(0, total - len(k) - 1)
         where = rng.choice(["first", "cont"])
-        fields[k] = body if where == "first" else b"x\n" + b"w" * (total - 1)
+        fields = {k: body if where == "first" else b"x\n" + b"w" * (total - 1)}
+        payload = "none"
     if shape == "outside":       # keys the daemon never emits: the monitor only checks model = implementation
-        fields[rng.choice(["status", "Code", "PAYLOAD-LENGTH", "STATUS", "a:b", "K EY", "\tTAB", ""])] = rng.choice([b"5", b"abc", b"OK", b""])
+        fields = {rng.choice(["status", "Code", "PAYLOAD-LENGTH", "STATUS", "a:b", "K EY", "\tTAB", ""]): rng.choice([b"5", b"abc", b"OK", b""])}
+        payload = "none"
     if shape == "over-limit":
         payload = hx(bytes(rng.randrange(256) for _ in range(cap + rng.choice([1, 5]))))
     spec = ";".join(f"{hx(k) if k else ''}={hx(v) if v else ''}" for k, v in fields.items()) or "-"
